@@ -6,7 +6,7 @@ from vlib import common
 from vlib.rtc import eng, explore, gen, triage
 
 ALL_SEEDS = ("basic", "refs", "lookup", "summary", "twoway", "twoway_list", "trigger", "prevnext",
-             "choices")
+             "choices", "trigger_deps")
 
 
 class UndoMonitor(explore.Monitor):
